@@ -150,10 +150,23 @@ def vars : Expr → List Var
 
 def disjoint (a b : List Var) : Bool := a.all fun x => !b.contains x
 
+/-- `may_have_effect`: could evaluating the expression be observable other than through its value (or observe
+    another expression's effect)?  Everything but names, constants, `not` and the control-flow expressions
+    themselves: calls, and also operators and comparisons (they may be overloaded or panic). -/
+def mayEff : Expr → Bool
+  | .var _ | .num _ | .bool _ => false
+  | .call0 _ => true
+  | .un o e => (match o with | .not => false | _ => true) || mayEff e
+  | .bi _ _ _ => true
+  | .cmp2 .. => true
+  | .and l r | .or l r => mayEff l || mayEff r
+  | .ite t b o => mayEff t || mayEff b || mayEff o
+  | .walrus _ e => mayEff e
+
 /-- `build_operands`: must the already built operand with residual `l'` be evaluated (stored in a temporary)
-    before the operand `r` is built?  Yes if both still make a call, or if `l'` reads a variable that `r`
+    before the operand `r` is built?  Yes if both may have an effect, or if `l'` reads a variable that `r`
     assigns. -/
-def needBind (l' r : Expr) : Bool := (anyCall r && anyCall l') || !disjoint (vars l') (writes r)
+def needBind (l' r : Expr) : Bool := (mayEff r && mayEff l') || !disjoint (vars l') (writes r)
 
 /-- `isinstance(e, ast.Constant | ast.Name)` -/
 def atomicSyn : Expr → Bool
